@@ -593,7 +593,7 @@ class FJSP(Spec):
             lo = draw(st.integers(1, 3))
             hi = draw(st.integers(lo, 4 if big else 3))
             return {"jobs": jobs, "mas": mas, "min_ops": lo, "max_ops": hi,
-                    "max_pt": draw(st.sampled_from([3, 6, 9, 20])),
+                    "max_pt": draw(st.sampled_from([3, 6, 9, 20, 20, 2000, 6000])),
                     "max_elig": draw(st.integers(1, mas)), "same_mean": draw(st.booleans()),
                     "mask_no_ops": draw(st.booleans())}
         return c()
@@ -676,7 +676,7 @@ class JSSP(FJSP):
                 lo = draw(st.integers(1, 3))
                 hi = draw(st.integers(lo, 4 if big else 3))
             return {"jobs": jobs, "mas": mas, "min_ops": lo, "max_ops": hi, "one2one": one2one,
-                    "max_pt": draw(st.sampled_from([3, 9, 99])), "mask_no_ops": draw(st.booleans())}
+                    "max_pt": draw(st.sampled_from([3, 9, 99, 99, 2000, 6000])), "mask_no_ops": draw(st.booleans())}
         return c()
 
     def build(self, cfg):
@@ -694,13 +694,14 @@ class FFSP(Spec):
     def cfg(self, tier):
         big = tier != "quick"
         return st.tuples(st.integers(1, 6 if big else 4), st.integers(1, 3), st.integers(1, 3),
-                         st.sampled_from([3, 5, 10])).map(
-            lambda t: {"jobs": t[0], "stages": t[1], "mas": t[2], "max_time": t[3]})
+                         st.sampled_from([3, 5, 10]), st.booleans()).map(
+            lambda t: {"jobs": t[0], "stages": t[1], "mas": t[2], "max_time": t[3], "flatten": t[4]})
 
     def build(self, cfg):
         from rl4co.envs import FFSPEnv
         return FFSPEnv(generator_params=dict(num_stage=cfg["stages"], num_machine=cfg["mas"], num_job=cfg["jobs"],
-                                             min_time=1, max_time=cfg["max_time"]))
+                                             min_time=1, max_time=cfg["max_time"],
+                                             flatten_stages=cfg.get("flatten", True)))
 
     # NOTE: the env object is cached like all others: it is reused *sequentially* for many episodes with
     # different batch sizes (legitimate usage); it still serves only one episode at a time.
